@@ -504,20 +504,27 @@ class Lark(Serialize, Generic[_Return_T]):
 
         if cache_fn:
             logger.debug('Saving grammar to cache: %s', cache_fn)
+            assert cache_sha256 is not None
             try:
-                with FS.open(cache_fn, 'wb') as f:
-                    assert cache_sha256 is not None
-                    payload_f = BytesIO()
-                    pickle.dump(used_files, payload_f)
-                    # `edit_terminals` has already been applied to the terminals that are saved; the callback
-                    # itself isn't needed to load them, and often can't be pickled (lambda, closure)
-                    self.save(payload_f, _LOAD_ALLOWED_OPTIONS | {'edit_terminals'})
-                    payload = payload_f.getvalue()
-                    key = cache_sha256.encode('utf8')
-                    f.write(b'%s %d %s\n' % (key, len(payload), sha256_digest(key + payload).encode('utf8')))
-                    f.write(payload)
-            except IOError as e:
-                logger.exception("Failed to save Lark to cache: %r.", cache_fn, e)
+                payload_f = BytesIO()
+                pickle.dump(used_files, payload_f)
+                # `edit_terminals` has already been applied to the terminals that are saved; the callback
+                # itself isn't needed to load them, and often can't be pickled (lambda, closure)
+                self.save(payload_f, _LOAD_ALLOWED_OPTIONS | {'edit_terminals'})
+                payload = payload_f.getvalue()
+            except Exception:
+                # Not everything can be pickled (a loader in import_paths or a lexer class that is a local
+                # object, a very deep grammar tree with cache_grammar). Such a parser just isn't cached.
+                # The file is opened only once there is something to write, so that nothing is lost
+                logger.exception("Failed to serialize Lark for the cache: %r.", cache_fn)
+            else:
+                try:
+                    with FS.open(cache_fn, 'wb') as f:
+                        key = cache_sha256.encode('utf8')
+                        f.write(b'%s %d %s\n' % (key, len(payload), sha256_digest(key + payload).encode('utf8')))
+                        f.write(payload)
+                except IOError:
+                    logger.exception("Failed to save Lark to cache: %r.", cache_fn)
 
     if __doc__:
         __doc__ += "\n\n" + LarkOptions.OPTIONS_DOC
